@@ -1149,6 +1149,14 @@ remote_dep_dequeue_nothread_progress(parsec_execution_stream_t* es,
     parsec_list_t temp_list;
     int ret = 0, how_many, position, executed_tasks = 0;
 
+    if( NULL == parsec_mpi_same_pos_items ) {
+        /* Single process run: the main thread progresses the engine and can get here
+         * (parsec_taskpool_wait / parsec_taskpool_test) before any parsec_context_wait
+         * has configured it. */
+        parsec_ce.enable(&parsec_ce);
+        remote_dep_ce_reconfigure(context);
+        parsec_remote_dep_reconfigure(context);
+    }
     PARSEC_OBJ_CONSTRUCT(&temp_list, parsec_list_t);
  check_pending_queues:
     if( cycles >= 0 )
